@@ -186,7 +186,7 @@ impl Space_ {
         let mut cum = vec![0usize];
         for (_, s) in &seeds {
             let l = s.len();
-            let n = 1 + l + l * nsub + l + (l + 1) * nins + l;
+            let n = 1 + l + l * nsub + l + (l + 1) * nins + l + 3 * l;
             cum.push(cum.last().unwrap() + n);
         }
         let short_len = if args.tier == Tier::Thorough { 3 } else { 2 };
@@ -269,13 +269,23 @@ impl Space_ {
             // structure-aware: byte p rewritten as a padded two-byte LEB of the same value
             // (valid wherever p is the last byte of a LEB128 that may be padded, invalid elsewhere)
             let p = k - (l + 1) * self.nins;
-            if s[p] >= 0x80 {
-                return None;
+            if p < l {
+                if s[p] >= 0x80 {
+                    return None;
+                }
+                let mut m = s.clone();
+                m[p] |= 0x80;
+                m.insert(p + 1, 0x00);
+                return Some((format!("{} byte {} re-encoded as a padded LEB", name, p), m));
             }
-            let mut m = s.clone();
-            m[p] |= 0x80;
-            m.insert(p + 1, 0x00);
-            return Some((format!("{} byte {} re-encoded as a padded LEB", name, p), m));
+            // structure-aware: byte p replaced by a five-byte LEB128 of a huge value (wherever p is a
+            // count, a size or an index this claims ~2^31 .. 2^32 of something in a tiny input)
+            let (p, which) = ((p - l) / 3, (p - l) % 3);
+            const HUGE: [[u8; 5]; 3] = [[0xff, 0xff, 0xff, 0xff, 0x0f], [0xff, 0xff, 0xff, 0xff, 0x07], [0x80, 0x80, 0x80, 0x80, 0x08]];
+            let mut m = s[..p].to_vec();
+            m.extend_from_slice(&HUGE[which]);
+            m.extend_from_slice(&s[p + 1..]);
+            return Some((format!("{} byte {} := huge LEB #{}", name, p, which), m));
         }
         let mut k = idx - seeds_total;
         let nshort: usize = (0..=self.short_len).map(|k| 256usize.pow(k as u32)).sum();
@@ -803,7 +813,7 @@ pub fn run(args: &Args) -> i32 {
     ev.rule = format!(
         "deviation-bounded enumeration: {} valid seeds (fixtures, every struct dimension variant, custom-section placements, a full name section, operator representatives); 0 deviations = the seed and, as is, every member \
          of every generated family incl. the whole operator census; 1 deviation = \
-         every prefix, every position x every value of the byte set ({} values per position), every single deletion, every single insertion (8 values quick / 256 thorough), every byte < 0x80 re-encoded as a padded two-byte LEB; all byte strings header+w with |w| <= {}; {}plus a depth/size family \
+         every prefix, every position x every value of the byte set ({} values per position), every single deletion, every single insertion (8 values quick / 256 thorough), every byte < 0x80 re-encoded as a padded two-byte LEB, every byte replaced by a five-byte LEB of a huge value (3 values); all byte strings header+w with |w| <= {}; {}plus a depth/size family \
          (nesting up to 10^{}, br_table arity, locals, function count, body size at LEB boundaries and validator limits) with each member parsed in a process of its own. Each input is parsed under the default \
          and the only-stable configuration in worker subprocesses. Oracle: no panic / crash / hang; accept <=> stand-alone wasmparser 0.214 with the feature set written down from the documentation. \
          non-trivial = inputs walrus accepts (distinct valid modules in the neighbourhood)",
